@@ -42,6 +42,6 @@ func VerifHandleHandshakeResponse(cc *Session, info HandshakeResponseInfo) error
 	return cc.handleHandshakeResponse(info)
 }
 
-func VerifSessionNamespace(cc *Session) string { return cc.namespace }
+func VerifSessionNamespace(cc *Session) string  { return cc.namespace }
 func VerifExecutorNamespace(cc *Session) string { return cc.executor.namespace }
 func VerifExecutorUser(cc *Session) string      { return cc.executor.user }
